@@ -431,6 +431,10 @@ ExhaustiveCmp == UNION { { [k |-> "cmp", n |-> 0, x |-> a, y |-> y, cfg |-> NoCf
 (* Gen: stream cases.  A write history over one resource configured with a *)
 (* tolerance equivalence; each written value is a small mutation of the    *)
 (* previous one (random walk: drift away from what a subscriber holds is   *)
+(* frequent; many writes touch only fields outside a subscriber's mask).   *)
+(* Subscribers: seed / updates-only, opened before or between the writes,  *)
+(* read mask nil / covering / not covering the written fields.             *)
+(*                                                                         *)
 (* frequent).  Only leaves the walk touches: fl, db, rd, wk, i.            *)
 Pick(seq) == seq[RandomElement(1..Len(seq))]          \* weighted choice
 SG(f) == CASE f = "fl" -> { Fin(v) : v \in {0, 2, 4, 6, 8, 10, 12, 16} }
@@ -447,6 +451,20 @@ SMut(a, z) == LET f == Pick(<<"fl", "fl", "fl", "fl", "db", "rd", "wk", "i">>) I
               IF RandomElement(1..6) = 1 THEN a
               ELSE IF f = "fl" /\ RandomElement(1..4) # 1 THEN [a EXCEPT !.fl = FlStep(@)]
               ELSE [a EXCEPT ![f] = RandomElement(SG(f))]
+\* read masks of stream subscribers: [nil, fs]; fs = top-level fields among those the walk touches
+\* (fl default_float, db default_double, rd repeated_double, wk default_well_known, i default_int32).
+\* Proj = what a subscriber with that mask is shown of x (the other fields read as unset).
+NilMask == [nil |-> TRUE, fs |-> <<>>]
+FMask(fs) == [nil |-> FALSE, fs |-> fs]
+MaskSet(m) == { m.fs[k] : k \in 1..Len(m.fs) }
+Proj(x, m) ==
+  IF m.nil THEN x
+  ELSE LET K == MaskSet(m) IN
+       [Empty(x.ty) EXCEPT !.fl = IF "fl" \in K THEN x.fl ELSE @, !.db = IF "db" \in K THEN x.db ELSE @,
+                           !.rd = IF "rd" \in K THEN x.rd ELSE @, !.wk = IF "wk" \in K THEN x.wk ELSE @,
+                           !.i = IF "i" \in K THEN x.i ELSE @]
+StreamMasks == <<NilMask, NilMask, FMask(<<"fl">>), FMask(<<"fl", "wk">>), FMask(<<"i", "db">>), FMask(<<"rd", "i">>), FMask(<<"wk">>),
+                 FMask(<<"fl", "db", "rd", "wk", "i">>)>>
 RECURSIVE Walk(_, _, _)
 Walk(a, n, z) == IF n = 0 THEN <<>> ELSE LET b == SMut(a, z) IN <<b>> \o Walk(b, n - 1, z + 1)
 GenStream(n) ==
@@ -457,7 +475,7 @@ GenStream(n) ==
       ws  == [j \in 1..len |->
                IF isVal THEN [op |-> "set", id |-> "", v |-> vs[j]]
                ELSE [op |-> IF RandomElement(1..7) = 1 THEN "del" ELSE "put", id |-> Pick(<<"a", "a", "a", "b">>), v |-> vs[j]]]
-      sub(z) == [uo |-> RandomElement(1..4) = 1, at |-> Pick(<<0, 0, 1, 2>>)]
+      sub(z) == [uo |-> RandomElement(1..4) = 1, at |-> Pick(<<0, 0, 1, 2>>), mask |-> Pick(StreamMasks)]
   IN [k |-> "stream", n |-> n, res |-> IF isVal THEN "val" ELSE "coll", terms |-> RandomElement(StreamCfgs),
       init |-> IF isVal /\ RandomElement(1..3) # 1 THEN [has |-> TRUE, v |-> a] ELSE [has |-> FALSE, v |-> Empty("T")],
       writes |-> ws, subs |-> <<sub(1), sub(2), sub(3)>>, sc |-> RandomElement(0..3), tb |-> RandomElement(0..3)]
